@@ -111,8 +111,8 @@ class SymInt:
         if o is NotImplemented:
             return NotImplemented
         r = z3.simplify(f(self.e, o))
-        if z3.is_int_value(r):
-            return r.as_long()
+        if z3.is_int_value(r) and not SymInt.const_hash:
+            return r.as_long()   # (under the constant-hash discipline every int must stay a proxy)
         return SymInt(r)
 
     def _cmp(self, o, f):
@@ -134,7 +134,7 @@ class SymInt:
     def __rmul__(s, o): return s._bin(o, lambda a, b: b * a)
     def __neg__(s): return SymInt(z3.simplify(-s.e))
     def __pos__(s): return s
-    def __abs__(s): return SymInt(z3.If(s.e < 0, -s.e, s.e))
+    def __abs__(s): return SymInt(z3.simplify(z3.If(s.e < 0, -s.e, s.e)))
 
     def _nz(s, o):
         z = _z(o)
